@@ -121,3 +121,81 @@ Qed.
 
 Lemma land_le_l : forall a b, N.land a b <= a.
 Proof. intros a b. rewrite N.land_comm. apply land_le_r. Qed.
+
+(* ---------------------------------------------------------------- bit fields *)
+Lemma lor_lt_pow2 : forall a b k, a < 2 ^ k -> b < 2 ^ k -> N.lor a b < 2 ^ k.
+Proof.
+  intros a b k Ha Hb.
+  destruct (N.eq_dec (N.lor a b) 0) as [H0|H0].
+  - rewrite H0. apply N.neq_0_lt_0. apply N.pow_nonzero. lia.
+  - apply N.log2_lt_pow2; [lia|]. rewrite N.log2_lor.
+    assert (Hla : a <> 0 -> N.log2 a < k) by (intro; apply N.log2_lt_pow2; lia).
+    assert (Hlb : b <> 0 -> N.log2 b < k) by (intro; apply N.log2_lt_pow2; lia).
+    destruct (N.eq_dec a 0) as [Ha0|Ha0]; destruct (N.eq_dec b 0) as [Hb0|Hb0]; subst.
+    + rewrite N.lor_0_l in H0. contradiction.
+    + change (N.log2 0) with 0. specialize (Hlb Hb0). lia.
+    + change (N.log2 0) with 0. specialize (Hla Ha0). lia.
+    + specialize (Hla Ha0). specialize (Hlb Hb0). lia.
+Qed.
+
+Lemma testbit_small : forall a k n, a < 2 ^ k -> k <= n -> N.testbit a n = false.
+Proof.
+  intros a k n Ha Hn. destruct (N.eq_dec a 0) as [->|Hz]; [apply N.bits_0|].
+  apply N.bits_above_log2. apply N.lt_le_trans with k; [|exact Hn].
+  apply N.log2_lt_pow2; lia.
+Qed.
+
+(* field extraction from  a | (b << k)  with a < 2^k *)
+Lemma shiftr_lor_shiftl : forall a b k, a < 2 ^ k -> N.shiftr (N.lor a (N.shiftl b k)) k = b.
+Proof.
+  intros a b k Ha. apply N.bits_inj. intro n.
+  rewrite N.shiftr_spec by lia. rewrite N.lor_spec.
+  rewrite (testbit_small a k (n + k)) by (auto; lia). cbn [orb].
+  rewrite N.shiftl_spec_high by lia. f_equal. lia.
+Qed.
+
+Lemma land_ones_lor_shiftl : forall a b k, a < 2 ^ k -> N.land (N.lor a (N.shiftl b k)) (N.ones k) = a.
+Proof.
+  intros a b k Ha. apply N.bits_inj. intro n.
+  rewrite N.land_spec, N.lor_spec.
+  destruct (N.lt_ge_cases n k) as [Hlt|Hge].
+  - rewrite N.ones_spec_low by exact Hlt. rewrite N.shiftl_spec_low by exact Hlt.
+    rewrite orb_false_r, andb_true_r. reflexivity.
+  - rewrite N.ones_spec_high by exact Hge. rewrite andb_false_r.
+    symmetry. apply (testbit_small a k n); auto.
+Qed.
+
+Lemma shiftl_lt_pow2 : forall b k m, b < 2 ^ m -> N.shiftl b k < 2 ^ (m + k).
+Proof.
+  intros b k m H. rewrite N.shiftl_mul_pow2, N.pow_add_r.
+  apply N.mul_lt_mono_pos_r; [|exact H]. apply N.neq_0_lt_0, N.pow_nonzero. lia.
+Qed.
+
+(* bit set by lor *)
+Lemma lor_testbit_r : forall a b n, N.testbit b n = true -> N.testbit (N.lor a b) n = true.
+Proof. intros a b n H. rewrite N.lor_spec, H. apply orb_true_r. Qed.
+Lemma lor_testbit_l : forall a b n, N.testbit a n = true -> N.testbit (N.lor a b) n = true.
+Proof. intros a b n H. rewrite N.lor_spec, H. reflexivity. Qed.
+
+Lemma u32_testbit : forall x n, n < 32 -> N.testbit (u32 x) n = N.testbit x n.
+Proof.
+  intros x n H. unfold u32. change mask32 with (N.ones 32).
+  rewrite N.land_spec, N.ones_spec_low by exact H. apply andb_true_r.
+Qed.
+Lemma u16_testbit : forall x n, n < 16 -> N.testbit (u16 x) n = N.testbit x n.
+Proof.
+  intros x n H. unfold u16. change mask16 with (N.ones 16).
+  rewrite N.land_spec, N.ones_spec_low by exact H. apply andb_true_r.
+Qed.
+
+Lemma land_pow2_testbit : forall x n, N.land x (2 ^ n) = 0 <-> N.testbit x n = false.
+Proof.
+  intros x n. split; intro H.
+  - destruct (N.testbit x n) eqn:E; [|reflexivity].
+    exfalso. assert (N.testbit (N.land x (2 ^ n)) n = true).
+    { rewrite N.land_spec, E, N.pow2_bits_true. reflexivity. }
+    rewrite H, N.bits_0 in H0. discriminate.
+  - apply N.bits_inj. intro m. rewrite N.land_spec, N.bits_0.
+    destruct (N.eq_dec m n) as [->|Hne]; [rewrite H; reflexivity|].
+    rewrite N.pow2_bits_false by auto. apply andb_false_r.
+Qed.
